@@ -8,9 +8,9 @@ mkdir -p $BN
 [ -x engine/egfacts/target/release/egfacts ] || (cd engine/egfacts && CARGO_NET_OFFLINE=true cargo +nightly build --release --offline >/dev/null 2>&1)
 IDS=$(python3 -c "import json;print(' '.join(c['property_id'] for c in json.load(open('MANIFEST.json'))['checks']))")
 DIRS=${@:-$(ls -d benign/*/)}
-echo $DIRS | tr ' ' '\n' | awk "{print NR%6, \$0}" > $BN/jobs.txt
+echo $DIRS | tr ' ' '\n' | awk -v n=${WORKERS:-6} "{print NR%n, \$0}" > $BN/jobs.txt
 : > $BN/result.tsv
-for w in 0 1 2 3 4 5; do
+for w in $(seq 0 $((${WORKERS:-6}-1))); do
  ( grep "^$w " $BN/jobs.txt | while read _ job; do
      name=$(basename $job)
      WT=$BN/wt$w; rm -rf $WT; git -C /repo worktree prune; git -C /repo worktree add --detach $WT HEAD >/dev/null 2>&1
